@@ -133,6 +133,9 @@ def build_coq():
 def harness(args, timeout=1200, inp=None, binary=None, env=None):
     e = dict(GOENV)
     e["VERIF_REPO"] = REPO
+    for k in ("VERIF_TIER", "VERIF_SEED"):
+        if k in os.environ:
+            e[k] = os.environ[k]
     if env:
         e.update(env)
     rc, so, se = sh([binary or HARNESS] + args, cwd=VERIF, env=e, timeout=timeout, inp=inp)
